@@ -1,7 +1,98 @@
 package main
 
-import "bytes"
+import (
+	"bytes"
+	"go/ast"
+	"strings"
+)
 
 // further tables are added here as the properties that need them are built
 func extraTables(v *bytes.Buffer, repo string, kmd *pkgFiles) {
+	writeTable(v, "raw_html_sinks", "(function, class, expression) of every conversion to template.HTML in cmd/keymasterd; class: escaped | base64 | literal | raw", 3, rawHTMLSinks(kmd))
+}
+
+// ------------------------------------------------------------------ C18 raw HTML sinks
+
+func concatLeaves(e ast.Expr) []ast.Expr {
+	if b, ok := e.(*ast.BinaryExpr); ok && b.Op.String() == "+" {
+		return append(concatLeaves(b.X), concatLeaves(b.Y)...)
+	}
+	if p, ok := e.(*ast.ParenExpr); ok {
+		return concatLeaves(p.X)
+	}
+	return []ast.Expr{e}
+}
+
+func leafClass(fd *ast.FuncDecl, e ast.Expr, depth int) string {
+	switch t := e.(type) {
+	case *ast.BasicLit:
+		return "literal"
+	case *ast.CallExpr:
+		n := callName(t)
+		if strings.HasSuffix(n, "HTMLEscapeString") || strings.HasSuffix(n, "html.EscapeString") {
+			return "escaped"
+		}
+		if strings.HasSuffix(n, "EncodeToString") && strings.Contains(n, "base64") {
+			return "base64"
+		}
+		return "raw"
+	case *ast.Ident:
+		if isParam(fd, t.Name) || depth > 3 {
+			return "raw"
+		}
+		rhs := assignmentsTo(fd, t.Name)
+		if len(rhs) == 0 {
+			return "raw"
+		}
+		cls := ""
+		for _, r := range rhs {
+			c := "literal"
+			for _, l := range concatLeaves(r) {
+				lc := leafClass(fd, l, depth+1)
+				if lc == "raw" {
+					return "raw"
+				}
+				if lc != "literal" {
+					c = lc
+				}
+			}
+			if cls == "" || cls == "literal" {
+				cls = c
+			}
+		}
+		return cls
+	}
+	return "raw"
+}
+
+func rawHTMLSinks(p *pkgFiles) []row {
+	var rows []row
+	forEachFunc(p, func(file string, fd *ast.FuncDecl) {
+		ast.Inspect(fd.Body, func(x ast.Node) bool {
+			c, ok := x.(*ast.CallExpr)
+			if !ok || len(c.Args) != 1 {
+				return true
+			}
+			n := callName(c)
+			if n != "template.HTML" && n != "htmltemplate.HTML" && n != "template.JS" && n != "htmltemplate.JS" &&
+				n != "template.HTMLAttr" && n != "htmltemplate.HTMLAttr" && n != "template.URL" && n != "htmltemplate.URL" &&
+				n != "template.CSS" && n != "htmltemplate.CSS" && n != "template.JSStr" && n != "template.Srcset" {
+				return true
+			}
+			cls := "literal"
+			for _, l := range concatLeaves(c.Args[0]) {
+				lc := leafClass(fd, l, 0)
+				if lc == "raw" {
+					cls = "raw"
+					break
+				}
+				if lc != "literal" {
+					cls = lc
+				}
+			}
+			rows = append(rows, row{cols: []string{fd.Name.Name, cls, src(c.Args[0])}, where: pos(c)})
+			return true
+		})
+	})
+	return rows
 }
